@@ -61,6 +61,10 @@ class Invalid(Exception):
     pass
 
 
+class Unspecified(Exception):
+    """the format text does not determine the outcome: checks make no claim"""
+
+
 # ---------------------------------------------------------------- zstd via ctypes
 _zstd = None
 
@@ -357,9 +361,12 @@ def decode(buf):
         if digest(p.ctype, stored) != c.digest:
             raise Invalid("chunk %d checksum mismatch" % i)
         if p.comp == 0:
+            # stored bytes are the data.  The format text does not say what a reader must do when the declared
+            # uncompressed length of an uncompressed chunk differs from its stored length, so no claim is made:
+            # the data of the chunk are its stored bytes.
             raw = stored
             if len(raw) != c.ulen:
-                raise Invalid("chunk %d: uncompressed length mismatch" % i)
+                raise Unspecified("chunk %d: uncompressed chunk with a different declared length" % i)
         elif p.comp == 2:
             raw = zstd_decompress(stored, c.ulen, dict_ if i > 0 else None)
             if raw is None or len(raw) != c.ulen:
